@@ -215,7 +215,9 @@ func (cli *Client) handshake(c diam.Conn) (diam.Conn, error) {
 
 	var dwac chan struct{}
 	if cli.EnableWatchdog {
-		dwac = make(chan struct{})
+		// Buffered, so that an answer handled before dwr starts
+		// waiting for it is not lost.
+		dwac = make(chan struct{}, 1)
 		cli.Handler.mux.Handle("DWA", handshakeOK(handleDWA(cli.Handler, dwac)))
 	}
 	for i := 0; i < (int(cli.MaxRetransmits) + 1); i++ {
@@ -297,6 +299,10 @@ func (cli *Client) watchdog(c diam.Conn, dwac chan struct{}) {
 
 func (cli *Client) dwr(c diam.Conn, osid uint32, dwac chan struct{}) {
 	m := cli.makeDWR(osid)
+	select {
+	case <-dwac: // Drop a stale answer left over from a previous round.
+	default:
+	}
 	for i := 0; i < (int(cli.MaxRetransmits) + 1); i++ {
 		_, err := m.WriteToStream(c, cli.WatchdogStream)
 		if err != nil {
